@@ -375,6 +375,16 @@ func (conn *obfs4Conn) clientHandshake(nodeID *ntor.NodeID, peerIdentityKey *nto
 		conn.encoder = framing.NewEncoder(okm[:framing.KeyLength])
 		conn.decoder = framing.NewDecoder(okm[framing.KeyLength:])
 
+		// The server can and will send payload trailing the response, and
+		// Read() only decodes after consuming more data off the network, so
+		// process what is already buffered now or it would sit there until
+		// (and unless) the peer happens to send something else.
+		if conn.receiveBuffer.Len() > 0 {
+			if err = conn.decodePackets(); err != nil && !errors.Is(err, framing.ErrAgain) {
+				return err
+			}
+		}
+
 		return nil
 	}
 }
